@@ -326,18 +326,24 @@ class Spec:
             return None
         return tuple(lo + (x - lo) % (hi - lo) for x, (lo, hi) in zip(p, self.bounds))
 
-    def metric_ok(self, *pts):
-        """the toroidal metric is defined for points of the space"""
-        return not self.torus or all(all(lo <= x <= hi for x, (lo, hi) in zip(p, self.bounds)) for p in pts)
-
     def d2(self, p, q):
+        """squared (toroidal) Euclidean distance of ANY two points: on a torus the least squared Euclidean distance from p to a
+        periodic image of q (searched over every image that can be nearest)"""
         tot = 0
         for i, (a, b) in enumerate(zip(p, q)):
             d = abs(a - b)
             if self.torus:
-                d = min(abs(a - b + k * self.size(i)) for k in (-1, 0, 1))
+                s = self.size(i)
+                n = d // s + 1
+                d = min(abs(a - b + k * s) for k in range(-n, n + 1))
             tot += d * d
         return tot
+
+    def image_of(self, p, q):
+        """p is a periodic image of q (the same point on a bounded space)"""
+        if not self.torus:
+            return tuple(p) == tuple(q)
+        return all((a - b) % self.size(i) == 0 for i, (a, b) in enumerate(zip(p, q)))
 
     def members(self):
         return list(self.order)
@@ -417,7 +423,7 @@ def oracle(sc, obs):
                 pt, r, incl = (int(w[1]), int(w[2])), int(w[3]), int(w[4])
                 if not o.startswith("ok nbrs="):
                     bad.append(f"query-raised: {line} -> {o}")
-                elif sp.metric_ok(pt) and all(v is not None for v in sp.pos.values()):
+                elif all(v is not None for v in sp.pos.values()):
                     want = sorted(a for a, q in sp.pos.items() if sp.d2(q, pt) <= r * r and (incl or sp.d2(q, pt) > 0))
                     if o != "ok nbrs=" + ",".join(map(str, want)):
                         bad.append(f"radius-exact: {line} -> {o}, agents within the radius are {want}")
@@ -426,16 +432,21 @@ def oracle(sc, obs):
                 if not o.startswith("ok d2="):
                     bad.append(f"query-raised: {line} -> {o}")
                 else:
-                    if sp.metric_ok(p, q) and o != f"ok d2={sp.d2(p, q)}":
+                    if o != f"ok d2={sp.d2(p, q)}":
                         bad.append(f"distance: {line} -> {o}, toroidal distance squared is {sp.d2(p, q)}")
                     if prev and prev[0][0] == "dist" and prev[0][1:] == w[3:5] + w[1:3] and prev[1] != o:
                         bad.append(f"dist-symmetric: {line} -> {o} but the swapped query gave {prev[1]}")
             elif k == "heading":
                 if not o.startswith("ok h="):
                     bad.append(f"query-raised: {line} -> {o}")
-                elif prev and prev[0][0] == "dist" and prev[0][1:] == w[1:] and prev[1].startswith("ok d2="):
+                else:
                     hx, hy = map(int, o[5:].split(","))
-                    if hx * hx + hy * hy != int(prev[1][6:]):
+                    p1, p2 = (int(w[1]), int(w[2])), (int(w[3]), int(w[4]))
+                    if not sp.image_of((p1[0] + hx, p1[1] + hy), p2):
+                        bad.append(f"heading-target: {line} -> {o}: following the heading from the first point does not arrive at (a periodic image of) the second")
+                    if hx * hx + hy * hy != sp.d2(p1, p2):
+                        bad.append(f"heading-length: {line} -> {o}, squared length {hx*hx+hy*hy} but the toroidal distance squared is {sp.d2(p1, p2)}")
+                    if prev and prev[0][0] == "dist" and prev[0][1:] == w[1:] and prev[1].startswith("ok d2=") and hx * hx + hy * hy != int(prev[1][6:]):
                         bad.append(f"heading-length: {line} -> {o}, squared length {hx*hx+hy*hy} but distance squared {prev[1][6:]}")
         else:
             ncoord = {"set": len(w) - 2, "iadd": len(w) - 2, "raw": len(w) - 2, "radius": len(w) - 2, "knn": len(w) - 2,
@@ -549,7 +560,7 @@ def oracle(sc, obs):
                 if not o.startswith("ok res="):
                     if legit:
                         bad.append(f"query-raised: {line} -> {o} with {n} agents in the space")
-                elif assigned and sp.metric_ok(pt, *sp.pos.values()) and o != "ok res=ambiguous":
+                elif assigned and o != "ok res=ambiguous":
                     body = o[7:]
                     alld = {a: sp.d2(pt, q) for a, q in sp.pos.items()}
                     if k in ("radius", "nir"):
@@ -578,6 +589,9 @@ def oracle(sc, obs):
                                 continue
                             a, v = x.split(":")
                             v = [int(c) for c in v.split(";")]
+                            if not sp.image_of(tuple(x + c for x, c in zip(pt, v)), sp.pos[int(a)]):
+                                bad.append(f"heading-target: {line} -> difference vector {v} of agent {a} does not lead from the point to (a periodic image of) the agent at {sp.pos[int(a)]}")
+                                break
                             if sum(c * c for c in v) != alld[int(a)]:
                                 bad.append(f"heading-length: {line} -> difference vector {v} of agent {a} has squared length {sum(c*c for c in v)}, distance squared {alld[int(a)]}")
                                 break
@@ -655,6 +669,11 @@ class Gen:
                 return p
         return tuple(lo for lo, _ in self.bounds)
 
+    def query_point(self):
+        """a query point: mostly a point of the space, but a quarter of them anywhere (up to two sizes outside the bounds): on a
+        torus such a point stands for its periodic image (repair CS3), on a bounded space it is just a point"""
+        return self.point(0.6) if self.R.random() < 0.25 else self.inside_point()
+
     def half_way(self, p):
         """a point of the space exactly half the size away from p on some axes (both periodic images equally near)"""
         q = list(p)
@@ -670,7 +689,7 @@ class Gen:
         k = R.random()
         if self.sp.order and k < 0.45:
             q = self.sp.pos[R.choice(self.sp.order)]
-            if q is not None and self.sp.metric_ok(pt, q):
+            if q is not None:
                 return isqrt_near(R, self.sp.d2(pt, q))
         if k < 0.5:
             return R.choice([-64, -1])
@@ -728,7 +747,7 @@ class Gen:
         elif k < 0.66:
             self.emit("agents")
         elif k < 0.86:
-            pt = self.inside_point() if (self.torus or R.random() < 0.8) else self.point(0.3)
+            pt = self.query_point()
             r = self.radius(pt)
             incl = R.choice([1, 1, 0])
             self.emit(f"nbrs {self.fmt(pt)} {r} {incl}")
@@ -740,8 +759,10 @@ class Gen:
             p, q = self.inside_point(), self.inside_point()
             if self.torus and R.random() < 0.3:
                 q = self.half_way(p)  # exactly half-way round: the tie of the heading rule
-            if not self.torus and R.random() < 0.2:
-                p = self.point(0.4)
+            elif R.random() < 0.25:
+                p = self.point(0.5)  # anywhere: on a torus the distance / heading to the nearest periodic image
+                if R.random() < 0.4:
+                    q = self.point(0.5)
             self.emit(f"dist {self.fmt(p)} {self.fmt(q)}")
             self.emit(f"dist {self.fmt(q)} {self.fmt(p)}")
             self.emit(f"heading {self.fmt(q)} {self.fmt(p)}")
@@ -859,11 +880,11 @@ class Gen:
         elif k < 0.63:
             self.emit("agents")
         elif k < 0.72:
-            pt = self.inside_point()
+            pt = self.query_point()
             self.emit(f"radius {self.fmt(pt)} {self.radius(pt)}")
         elif k < 0.80:
             kk = R.choice([n, n, R.randrange(1, n + 1), R.randrange(1, n + 1), 1, 0, n + 1] if not self.rr else [n, 1])
-            self.emit(f"knn {self.fmt(self.inside_point())} {kk}")
+            self.emit(f"knn {self.fmt(self.query_point())} {kk}")
         elif k < 0.85:
             a = self.member()
             self.emit(f"nir {a} {self.radius(sp.pos[a])}")
@@ -871,7 +892,7 @@ class Gen:
             kk = R.choice([n - 1, n - 1, R.randrange(0, n), R.randrange(0, n), n] if not self.rr else [n - 1, 1])
             self.emit(f"nn {self.member()} {max(kk, 0)}")
         elif k < 0.95:
-            pt = self.inside_point()
+            pt = self.query_point()
             if self.torus and sp.order and R.random() < 0.3 and sp.pos[sp.order[-1]] is not None:
                 pt = self.half_way(sp.pos[R.choice([a for a in sp.order if sp.pos[a] is not None])])
             sub = ""
